@@ -274,6 +274,7 @@ func browserSerialisable(o string) bool {
 }
 
 func (c02) Gen(r *R, tier string) any {
+	observeUnknownAPI = false
 	p := &C02Plan{Cfg: genCfg(r)}
 	n := r.Range(1, 4)
 	for i := 0; i < n; i++ {
@@ -799,12 +800,12 @@ func viaRoute(route int, cfg Cfg, other *Cfg, debug bool, c *Ctx) (m *cors.Middl
 		switch route {
 		default:
 			var err error
-			if m, err = cors.NewMiddleware(cc); err != nil {
+			if m, err = mkMW(cc); err != nil {
 				return
 			}
 			m.SetDebug(debug)
 		case 1:
-			m = new(cors.Middleware)
+			m = zeroMW()
 			if m.Reconfigure(&cc) != nil {
 				m = nil
 				return
@@ -812,7 +813,7 @@ func viaRoute(route int, cfg Cfg, other *Cfg, debug bool, c *Ctx) (m *cors.Middl
 			m.SetDebug(debug)
 		case 2:
 			var err error
-			if m, err = cors.NewMiddleware(other.Config()); err != nil {
+			if m, err = mkMW(other.Config()); err != nil {
 				m = nil
 				return
 			}
@@ -822,7 +823,7 @@ func viaRoute(route int, cfg Cfg, other *Cfg, debug bool, c *Ctx) (m *cors.Middl
 			}
 		case 3:
 			var err error
-			if m, err = cors.NewMiddleware(cc); err != nil {
+			if m, err = mkMW(cc); err != nil {
 				return
 			}
 			m.SetDebug(!debug)
@@ -835,7 +836,7 @@ func viaRoute(route int, cfg Cfg, other *Cfg, debug bool, c *Ctx) (m *cors.Middl
 			m.SetDebug(debug)
 		case 4:
 			var err error
-			if m, err = cors.NewMiddleware(cc); err != nil {
+			if m, err = mkMW(cc); err != nil {
 				return
 			}
 			m.SetDebug(debug)
@@ -849,7 +850,7 @@ func viaRoute(route int, cfg Cfg, other *Cfg, debug bool, c *Ctx) (m *cors.Middl
 			// hot reload: the operator keeps ONE Config value, edits it in place (same
 			// backing arrays where they are big enough) and passes the same pointer again
 			live := other.Config()
-			m = new(cors.Middleware)
+			m = zeroMW()
 			if m.Reconfigure(&live) != nil {
 				m = nil
 				return
@@ -875,6 +876,7 @@ func viaRoute(route int, cfg Cfg, other *Cfg, debug bool, c *Ctx) (m *cors.Middl
 }
 
 func (c02) Exec(plan any, c *Ctx) *Violation {
+	observeUnknownAPI = false
 	p := plan.(*C02Plan)
 	mOff, cfgOff, ok1 := viaRoute(p.Routes[0], p.Cfg, p.Other, false, c)
 	mOn, cfgOn, ok2 := viaRoute(p.Routes[1], p.Cfg, p.Other, true, c) // live state, set through the public API
